@@ -20,6 +20,10 @@ impl View for CowStr { type V = Seq<char>; open spec fn view(&self) -> Seq<char>
 impl CowStr { #[verifier::external_body] pub fn into_owned(self) -> (r: String) ensures r@ == self@ { unimplemented!() } }
 /// std: `impl From<&str> for String` copies the characters (also reached through `.into()`)
 pub assume_specification<'a>[<String as From<&'a str>>::from](s: &str) -> (r: String) ensures r@ == s@;
+/// `Option::filter` (API neighbourhood, not called by the unchanged code): keeps the value exactly when the predicate says so
+pub assume_specification<T, P: FnOnce(&T) -> bool>[Option::<T>::filter](o: Option<T>, p: P) -> (r: Option<T>)
+    requires o matches Some(t) ==> p.requires((&t,)),
+    ensures match o { None => r is None, Some(t) => (r == Some(t) && p.ensures((&t,), true)) || (r is None && p.ensures((&t,), false)) };
 pub mod axioms { use super::*;
     /// derive(Ord, PartialOrd, Eq, PartialEq) on the two-variant `Lint`: a total order consistent with equality (vstd's btree key model)
     pub broadcast axiom fn lint_is_a_btree_key()
